@@ -366,6 +366,10 @@ func (e *Env) evalBinary(x *EBinary) Val {
 		e.fail(x.P, "operator %s on sort %s", x.Op, a.T.Sort)
 	}
 	switch x.Op {
+	case "&", "|", "^", "&^":
+		name := map[string]string{"&": "int_and", "|": "int_or", "^": "int_xor", "&^": "int_andnot"}[x.Op]
+		e.fc.d.Fun(name, []Sort{SInt, SInt}, SInt)
+		return Val{T: App(SInt, name, a.T, b.T), Typ: a.Typ}
 	case "+":
 		return Val{T: Add(a.T, b.T), Typ: a.Typ}
 	case "-":
@@ -522,7 +526,11 @@ func (fc *FuncCtx) wellFormed(v *Term, t types.Type, alloc *Term) *Term {
 			is := func(c string) *Term { return &Term{"((_ is " + c + ") " + v.S + ")", SBool} }
 			fc.d.Fun("tid_kind", []Sort{SInt}, SInt)
 			kind := func(acc string, k int64) *Term { return Eq(App(SInt, "tid_kind", App(SInt, acc, v)), IntLit(k)) }
-			return And(
+			impl := TTrue
+			if it, ok := t.Underlying().(*types.Interface); ok && it.NumMethods() > 0 && !strings.Contains(v.S, "!q") {
+				impl = Or(Eq(v, &Term{"a_nil", SAny}), fc.implements(v, t))
+			}
+			return And(impl,
 				Implies(is("a_ref"), And(Ge(App(SInt, "a_ref_v", v), IntLit(0)), Lt(App(SInt, "a_ref_v", v), alloc), kind("a_ref_ty", 5))),
 				Implies(is("a_int"), kind("a_int_ty", 3)),
 				Implies(is("a_f64"), kind("a_f64_ty", 4)),
@@ -742,6 +750,10 @@ func (e *Env) evalCall(x *ECall) Val {
 	case "max":
 		a, b := arg(0), arg(1)
 		return Val{T: Ite(Ge(a.T, b.T), a.T, b.T), Typ: a.Typ}
+	case "i2f":
+		a := arg(0)
+		fc.d.Fun("i2f", []Sort{SInt}, SF64)
+		return Val{T: App(SF64, "i2f", a.T), Typ: types.Typ[types.Float64]}
 	case "int2bv":
 		a := arg(0)
 		if n, ok := isIntLit(a.T); ok {
@@ -990,9 +1002,15 @@ func (fc *FuncCtx) anyUnwrap(a *Term, t types.Type) *Term {
 	}
 	fc.declSort(s)
 	un := "unbox_" + sanitize(string(s))
-	fc.d.Fun("box_"+sanitize(string(s)), []Sort{s}, SInt)
+	bn := "box_" + sanitize(string(s))
+	fc.d.Fun(bn, []Sort{s}, SInt)
 	fc.d.Fun(un, []Sort{SInt}, s)
-	return App(s, un, App(SInt, "a_oth_v", a))
+	r := App(s, un, App(SInt, "a_oth_v", a))
+	// boxing is a bijection on boxed values of this type
+	if !strings.Contains(a.S, "!q") {
+		fc.addAxiom(Implies(fc.anyIs(a, t), Eq(App(SInt, bn, r), App(SInt, "a_oth_v", a))))
+	}
+	return r
 }
 
 // anyTypeID: dynamic type id of an interface value (0 for nil). bool and string use their
